@@ -110,6 +110,11 @@ func (r *runner) mutate(si int, st mbt.Step) bool {
 		r.rep.Checks++
 		r.rep.Count("mutants")
 		r.rep.Count("mutant-" + res.outcome)
+		if res.outcome == "Wedge" {
+			r.fail(si, action, "property", true, "wedge:mutant:"+m.T, fmt.Sprintf("after a mutated encoding (%s) the node's state can no longer be read (lock left held)\nbytes: %x\n%s", labels[k], trunc(mb, 300), res.stack), nil, "Wedge")
+			r.e = nil
+			return false
+		}
 		if res.outcome == "Crash" {
 			r.fail(si, action, "panic", true, "crash:mutant:"+m.T,
 				fmt.Sprintf("panic on the consensus goroutine for a mutated encoding (%s): %v\nbytes: %x\n%s", labels[k], res.pval, trunc(mb, 300), res.stack), nil, "Crash")
@@ -232,6 +237,11 @@ func (r *runner) scenario(si int, st mbt.Step) bool {
 		}
 		r.rep.Checks++
 		r.rep.Count("scenario_messages")
+		if res.outcome == "Wedge" {
+			r.fail(si, action, "property", true, "wedge:scenario:"+name, "after message "+fmt.Sprint(k)+" of the scenario the node's state can no longer be read (lock left held)\n"+res.stack, nil, "Wedge")
+			r.e = nil
+			return false
+		}
 		if res.outcome == "Crash" {
 			r.fail(si, action, "panic", true, "crash:scenario:"+name,
 				fmt.Sprintf("panic on the consensus goroutine at message %d of the scenario (proposal signed by the round's proposer for bytes that are not a well-formed block, then its part): %v\n%s", k, res.pval, res.stack), nil, "Crash")
